@@ -97,12 +97,29 @@ class C14:
         b = Builder(rng)
         f6 = rng.random() < 0.6
         pool = []
+        twins = []
         for _ in range(rng.randint(2, 5)):
             spec = draw_base(rng)
             h = b.emit(spec['ctor'], spec['args'], store='pr',
                        tags={'k': spec['ctor']})
             pool.append(h)
+            if rng.random() < 0.3:
+                # a twin: a separate object with the very same definition
+                pool.append(b.emit(spec['ctor'], dict(spec['args']),
+                                   store='pr', tags={'k': spec['ctor']}))
+                twins.append((h, pool[-1]))
         derived = []
+        for x_, y_ in twins:
+            # two equal-looking but separate random variables combined
+            h = b.emit('derive', {'expr': {
+                'fn': rng.choice(['ufunc:add', 'ufunc:multiply', 'add',
+                                  'sub', 'mul']),
+                'args': [x_, y_]}}, store='dpr', tags={'k': 'derive'})
+            derived.append(h)
+            b.emit('prior_sample', {'pr': h, 'size': rng.choice([None, 3]),
+                                    'script': None,
+                                    'seed': rng.randrange(2 ** 31)},
+                   tags={'k': 'sample-derived', 'sample': True})
         for _ in range(rng.randint(8, 28)):
             c = rng.random()
             if c < 0.3:
@@ -317,7 +334,7 @@ class C14:
                 r = ex.records.get(ev['id'])
                 if not r or r['outcome'] != 'ok':
                     return None
-                return {'base': ev['op'], 'args': ev['args']}
+                return {'base': ev['op'], 'args': ev['args'], 'id': ev['id']}
             if ev['op'] == 'derive':
                 r = ex.records.get(ev['id'])
                 if not r or r['outcome'] != 'ok':
@@ -471,6 +488,29 @@ class C14:
         try:
             want = self._ref_sample(t, size, it)
         except (_Unaligned, ValueError):
+            # the draws could not be attributed leaf by leaf.  One thing
+            # holds however the library draws (one call per prior, one
+            # vectorised call, ...): separate prior objects are separate
+            # random variables, so k of them need at least k variates per
+            # sample
+            ids = set()
+
+            def leaves(x):
+                if 'base' in x:
+                    ids.add(x['id'])
+                for a_ in x.get('args', []) if 'fn' in x else []:
+                    leaves(a_)
+            leaves(t)
+            n_ = 1 if size is None else int(np.prod(size))
+            seen = sum(int(np.asarray(c['out']).size) for c in calls)
+            if calls and seen < len(ids) * n_:
+                ex.add(violation(
+                    'C14.derived', ev['id'],
+                    'a derived prior over %d separate priors consumed only '
+                    '%d random variates for %d sample(s): some of its base '
+                    'samples are not separate draws' % (len(ids), seen, n_),
+                    sig='C14.derived:too-few-draws'))
+                return
             ex.stats.setdefault('extra', {})
             ex.stats['extra']['derived_unaligned'] = \
                 ex.stats['extra'].get('derived_unaligned', 0) + 1
